@@ -22,29 +22,29 @@ import (
 func dnsNewBloom() *bloom.BloomFilter { return bloom.NewWithEstimates(2048, 0.001) }
 
 type dnsEntryObs struct {
-	raw        string
-	key        dnsKey
-	keyOK      bool
-	ptr        *DnsCache
-	ids        []int
-	ips        []netip.Addr
-	foreign    string // non-empty: a record that does not belong to the key
-	insertedAt time.Duration
-	insertStep int
-	removedAt  time.Duration
-	removeStep int
-	removed    bool
-	replaced   bool
-	removeCtx  string
-	ttl        uint32
-	hasTTL     bool
-	ttlMax     uint32 // largest record TTL of the answer (mixed-TTL answers)
-	ttlFirst   uint32 // TTL of the first record
-	refreshed  bool // inserted by a background refresh
-	replacedExisting bool // stored over an entry that was cached under the key at that moment
-	restored   bool // came from a reload clone: keeps the deadline of its origin
-	origin     *dnsEntryObs
-	countAtRemoval int
+	raw              string
+	key              dnsKey
+	keyOK            bool
+	ptr              *DnsCache
+	ids              []int
+	ips              []netip.Addr
+	foreign          string // non-empty: a record that does not belong to the key
+	insertedAt       time.Duration
+	insertStep       int
+	removedAt        time.Duration
+	removeStep       int
+	removed          bool
+	replaced         bool
+	removeCtx        string
+	ttl              uint32
+	hasTTL           bool
+	ttlMax           uint32 // largest record TTL of the answer (mixed-TTL answers)
+	ttlFirst         uint32 // TTL of the first record
+	refreshed        bool   // inserted by a background refresh
+	replacedExisting bool   // stored over an entry that was cached under the key at that moment
+	restored         bool   // came from a reload clone: keeps the deadline of its origin
+	origin           *dnsEntryObs
+	countAtRemoval   int
 }
 
 // cause: the controller path that evicted the entry (known once its delete callback ran).
@@ -121,13 +121,13 @@ func (e *dnsEntryObs) originalDeadline() (time.Duration, bool) {
 type dnsUse struct{ min, max time.Duration }
 
 type dnsCacheTrack struct {
-	w       *dnsWorld
-	ctl     *DnsController
-	cur     map[string]*dnsEntryObs
-	hist    []*dnsEntryObs
-	lastUse map[dnsKey]dnsUse
-	rejects map[[2]int]time.Duration // (name, qtype) -> last time a question for it was routed to reject
-	frozen  bool
+	w         *dnsWorld
+	ctl       *DnsController
+	cur       map[string]*dnsEntryObs
+	hist      []*dnsEntryObs
+	lastUse   map[dnsKey]dnsUse
+	rejects   map[[2]int]time.Duration // (name, qtype) -> last time a question for it was routed to reject
+	frozen    bool
 	restoring bool
 }
 
@@ -356,20 +356,58 @@ func (t *dnsCacheTrack) touch(k dnsKey, from, to time.Duration, uncertain bool) 
 // simulated domain_routing_map behind the bpf batch hooks
 
 type dnsKernMap struct {
-	w       *dnsWorld
-	handle  *ebpf.Map
-	m       map[[4]uint32]bpfDomainRouting
-	updates int
-	deletes int
-	failed  int
-	tainted bool
-	inSync  int
+	w          *dnsWorld
+	handle     *ebpf.Map
+	m          map[[4]uint32]bpfDomainRouting
+	updates    int
+	deletes    int
+	failed     int
+	tainted    bool // an UPDATE batch failed half-way: the run is not compared any more
+	inSync     int
+	inCallback int // cache side-effect callbacks (sync / removal) currently running
+	// failed DELETE batches (nothing applied): the owner whose sync failed is "dirty"
+	// until a later sync of that owner succeeded; comparisons wait for that
+	// (DESIGN C10, fault sub-runs: the next successful sync of the affected owner
+	// restores equality)
+	dirty      map[string]bool
+	failedDel  map[[4]uint32]string // address -> owner, delete failed and has not been repeated yet
+	delFails   int
+	batchKeys  map[string][][4]uint32 // task -> addresses written by update batches of the sync it is running
+	unrecorded map[[4]uint32]string   // address written by the update batch of a sync whose delete batch then failed -> owner
 	lastWriter map[[4]uint32]string
 	lastStep   map[[4]uint32]int
 }
 
 func dnsNewKernMap(w *dnsWorld) *dnsKernMap {
-	return &dnsKernMap{w: w, handle: new(ebpf.Map), m: map[[4]uint32]bpfDomainRouting{}, lastWriter: map[[4]uint32]string{}, lastStep: map[[4]uint32]int{}}
+	return &dnsKernMap{w: w, handle: new(ebpf.Map), m: map[[4]uint32]bpfDomainRouting{}, lastWriter: map[[4]uint32]string{}, lastStep: map[[4]uint32]int{}, dirty: map[string]bool{}, failedDel: map[[4]uint32]string{}, batchKeys: map[string][][4]uint32{}, unrecorded: map[[4]uint32]string{}}
+}
+
+// syncDone is told about every cache side-effect callback (insert/async update:
+// removal=false; eviction: removal=true) when it returns.
+func (k *dnsKernMap) syncDone(owner string, c *DnsCache, removal bool, err error) {
+	if err != nil {
+		k.dirty[owner] = true
+		for _, key := range k.batchKeys[verifsim.TaskName()] {
+			k.unrecorded[key] = owner
+		}
+		if k.w.s.LogOn {
+			k.w.s.Notef("domain routing sync of owner %q failed: %v", owner, err)
+		}
+		return
+	}
+	if !k.dirty[owner] {
+		return
+	}
+	// a real sync of what the cache holds now (not a call that stood back because a
+	// newer entry owns the key)
+	cur := k.w.cachedUnder(owner)
+	if (removal && cur == nil) || (!removal && cur == c) {
+		delete(k.dirty, owner)
+		k.w.s.Probe("dns.c10-owner-synced-again-after-failed-delete")
+		if k.w.s.LogOn {
+			k.w.s.Notef("owner %q synced successfully again after a failed sync (removal=%v)", owner, removal)
+		}
+	}
 }
 
 func (k *dnsKernMap) install(faults bool) {
@@ -402,7 +440,9 @@ func (k *dnsKernMap) install(faults bool) {
 		}
 		for i := 0; i < n; i++ {
 			k.m[ks[i]] = vs[i]
+			delete(k.failedDel, ks[i])
 		}
+		k.batchKeys[verifsim.TaskName()] = append(k.batchKeys[verifsim.TaskName()], ks[:n]...)
 		k.noteWriter(ks[:n], "update")
 		k.updates++
 		if w.s.LogOn {
@@ -425,11 +465,15 @@ func (k *dnsKernMap) install(faults bool) {
 			n = 0
 			err = errors.New("simulated bpf batch delete failure")
 			k.failed++
-			k.tainted = true
+			k.delFails++
+			for _, key := range ks {
+				k.failedDel[key] = verifsim.TaskName()
+			}
 			w.s.Fault("bpf-delete-fail")
 		}
 		for i := 0; i < n; i++ {
 			delete(k.m, ks[i])
+			delete(k.failedDel, ks[i])
 		}
 		k.noteWriter(ks[:n], "delete")
 		k.deletes++
